@@ -101,9 +101,7 @@ Theorem rt_roundtrip c : fits I64 c = true ->
 Proof.
   intros Hc. unfold rt_print, rt_parse.
   assert (HR : c14_rep Ps I64) by (left; reflexivity).
-  assert (Hdef : rt_defect Ps I64 c = false).
-  { destruct (rt_defect Ps I64 c) eqn:E; [|reflexivity]. destruct (rt_defect_days Ps I64 c HR Hc E) as [H _]. discriminate H. }
-  pose proof (tp_print_correct Ps I64 c HR Hc Hdef) as Ep.
-  destruct (tp_roundtrip Ps I64 c HR Hc Hdef) as (text & E1 & E2).
+  pose proof (tp_print_correct Ps I64 c HR Hc) as Ep.
+  destruct (tp_roundtrip Ps I64 c HR Hc) as (text & E1 & E2).
   rewrite Ep in E1. inversion E1. subst text. auto.
 Qed.
